@@ -315,6 +315,8 @@ def hints_depth2_curated():
         kids.append(_mk(f'{bn}[UA,float]', bf, ('UA', uc.UA), ('float', float)))
     kids.append(('Annotated[int,eq1|P1]', Annotated[int, make_validator(('or', ('eq', 1), ('is', P1)))]))
     kids.append(('Type[UA]', Type[uc.UA]))
+    kids.append(('Annotated[object,attr_n_eq1]', Annotated[object, make_validator(('attr', 'n', ('eq', 1)))]))
+    kids.append(('Annotated[UH,attr_n_P1]', Annotated[uc.UH, make_validator(('attr', 'n', ('is', P1)))]))
     kids = [k for k in kids if k]
     for un, uf in FAMILY_UNARY:
         for k in kids:
